@@ -239,7 +239,10 @@ def check_property(pid, tier="quick", seed=0, verbose=True):
     if vac_errors:
         for e in vac_errors:
             log("CHECKER-ERROR vacuity: " + e)
-        return 3
+        # (never on the committed tree.  On a changed tree the contracts no longer fit the code --
+        #  e.g. a loop was added or removed so invariants attach to other loops; the bounded
+        #  run-time check can still exhibit a concrete failing input)
+        return 1 if undecided_fallback(pid, tier, seed, known, log) == 1 else 3
 
     # ---- classify -------------------------------------------------------------------
     failed, undecided = [], []
